@@ -1,8 +1,36 @@
 """C14 — list-mode histogramming agrees with the event list."""
 import os
+from fractions import Fraction
 import vlib
 
 PROP = "C14"
+SCALE = 2 ** 100
+
+
+def compare(op, impl, model):
+    """Histogram ops: exact.  `lmgps` (list-mode gradient plus sensitivity of the real objective function): the model answers,
+    per voxel, round(exact*2^100):ceil(bound*2^100) with the exact value in Rat and the derived forward error bound
+    4*n*2^-24*sum|terms| (n = longest row + number of additions to the voxel + 10); see lean/Driver/C14.lean."""
+    if impl == model:
+        return True
+    if op.split(" ", 1)[0] != "lmgps":
+        return False
+    if impl in ("err", "<missing>") or model in ("no-row", "bad-op", "<missing>"):
+        return False
+    try:
+        it, mt = impl.split(), model.split()
+        if len(it) != len(mt):
+            return False
+        for a, m in zip(it, mt):
+            x = float.fromhex(a)
+            if x != x or x in (float("inf"), float("-inf")):
+                return False
+            v, b = m.split(":")
+            if abs(Fraction(x) * SCALE - int(v)) > int(b) + 2:
+                return False
+        return True
+    except (ValueError, OverflowError):
+        return False
 
 
 def main(tier, replay):
@@ -13,7 +41,7 @@ def main(tier, replay):
                 tier = l.split("tier=")[1].split()[0]
     chk = vlib.Check(PROP, tier, level="proof")
     audit = vlib.lean_gate(chk, PROP)
-    stats = vlib.run_differential(chk, PROP, "c14_lm_histogram", tier)
+    stats = vlib.run_differential(chk, PROP, "c14_lm_histogram", tier, compare=compare)
     extra = {}
     of = os.path.join(vlib.OUT, "c14_%s.impl.oracle" % tier)
     if os.path.exists(of):
